@@ -52,7 +52,7 @@ def hostile_pool(canary):
         f"compile(\"open('{c}','w')\", 'x', 'exec')", f"__import__('pathlib').Path('{c}').touch()", f"(lambda: open('{c}', 'w'))()",
         f"[open('{c}', 'w') for _ in range(1)]", f"(x := open('{c}', 'w'))", f"().__class__.__mro__[1].__subclasses__()", f"getattr(__builtins__, 'open')('{c}', 'w')",
         f"__import__('subprocess').run(['touch', '{c}'])", f"__import__('socket').socket()", f"__import__('os').environ.__setitem__('X', '1')",
-        "9**9**9", "1<<10**9", "'a'*10**9", "int('9'*10**5)", "1e400", "float('nan')", "-1e400", "10**10**10", "2**(2**40)", "(1<<(1<<40))", "9**9**9**9", "(2**63)**64", "-((2**63)**40)", "(10**19)**60", "(2**63)**17 * 1.0", "float((2**63)**64)", "int(1e300) * int(1e300)",
+        "9**9**9", "1<<10**9", "'a'*10**9", "int('9'*10**5)", "1e400", "float('nan')", "-1e400", "10**10**10", "2**(2**40)", "(1<<(1<<40))", "9**9**9**9", "0 ** -1", "(1 - 1) ** -2", "False ** -1", "0.0 ** -1", "0 ** -1.5", "1 // 0", "1 % 0", "1 / 0", "1.5 // 0", "2 ** -1", "(-8) ** 0.5", "(2**63)**64", "-((2**63)**40)", "(10**19)**60", "(2**63)**17 * 1.0", "float((2**63)**64)", "int(1e300) * int(1e300)",
         "[0]*10**9", "max(9**9**9, 1)", "abs(-(9**9**9))", "len('a'*10**10)", "1 if 9**9**9 else 2", "f'{9**9**9}'", "str(9**99999)",
         "x.__class__", "globals()", "locals()", "vars()", "dir()", "input()", "breakpoint()", "exit()", "quit()", "help()", "__file__", "__name__",
         "[1, 0, 1e400]", "[255, -1e999]", "[1, float('nan')]", "[1, 2, 3, 4, 5, 6, 7, 1e400]", "[9**9**9]", "(1, 1e400)", "'HC-SR04' * 10**9",
